@@ -233,3 +233,14 @@ def run(ctx):
     ctx.ob(ok, 'the connection-success event is emitted exactly for a CONNACK whose reason code is Success', 'producer|success-event', loc=dpe.loc(), rule='R-C12-5')
     ld = [(i, show(rve)) for (i, s_, pe, rve) in dpe.field_writes() if show(pe) == 'self.last_disconnect']
     ctx.ob(len(ld) == 1 and ld[0][1].startswith('Option::Some{') and guarded_any(dpe, ld[0][0], [r' is Disconnect$']), 'a server DISCONNECT event is stored for the disconnection event', 'producer|last-disconnect', loc=dpe.loc(), rule='R-C12-5')
+    # ---- added after the mutation sweep: nothing from the previous attempt leaks into the events of the next one
+    rsn = ctx.fn('MqttClientImpl::reset_state_for_new_connection')
+    eff_ = prims.must_field_effects(F, rsn)
+    for f_, w_ in (('last_connack', 'Option::None{}'), ('last_disconnect', 'Option::None{}'), ('last_error', 'Option::None{}'), ('desired_stop_options', 'Option::None{}'), ('packet_events', 'clear()')):
+        ctx.ob(w_ in eff_.get(f_, set()), 'a new connection attempt starts with `%s := %s` on every path (what the next failure / disconnection event reports belongs to this attempt)' % (f_, w_), 'attempt-reset|' + f_, loc=rsn.loc(), rule='R-C12-5')
+    ctx.ob(any(x.startswith('Option::Some{0: Instant::now()') for x in eff_.get('last_start_connect_time', set())), 'the attempt start time (connect timeout base) is taken when the attempt starts', 'attempt-reset|start-time', loc=rsn.loc(), rule='R-C12-5')
+    att = rsn.calls('MqttClientImpl::emit_connection_attempt_event')
+    ctx.ob(len(att) == 1 and att[0].bb in prims.view_must_blocks(rsn), 'every new connection attempt is reported (attempt event emitted on every path of the per-attempt reset)', 'attempt-reset|event', loc=rsn.loc(), rule='R-C12-5')
+    tts_ = ctx.fn('MqttClientImpl::transition_to_state')
+    rc_ = tts_.calls('MqttClientImpl::reset_state_for_new_connection')
+    ctx.ob(len(rc_) == 1 and guarded_any(tts_, rc_[0].bb, [r'^\(new_state == ClientImplState::Connecting\{\}\)$']), 'the per-attempt reset runs exactly when the client enters Connecting', 'attempt-reset|site', loc=tts_.loc(), rule='R-C12-5')
